@@ -43,7 +43,14 @@ def r_norm_corners(run, tree):
     qs.check_norm_corner_cases(run, tree)
 
 
-RULES = [r_conversion, r1_delegation, r2_gates, r3_equality, r_norm_corners]
+def r_equality_history(run, tree):
+    from . import quantity_stack as qs
+    run.rule("C20.R6", "equality end to end across units and through time: groups holding the same quantity in m and in cm compare equal; after a member's buffer is "
+             "edited in place the next comparison sees it (both orientations)", "D7 fold of Datagroup.__eq__ with the whole Array class under symbolic buffers and unit scales", "", floor=2)
+    qs.check_group_equality_history(run, tree)
+
+
+RULES = [r_conversion, r1_delegation, r2_gates, r3_equality, r_norm_corners, r_equality_history]
 
 
 def t_history_space(run, tree):
